@@ -44,7 +44,9 @@ Inductive event :=
 | EDestroy (u : Z)
 | ERestart
 | EOther
-| EForeign.
+| EForeign
+| EMake (k : ckind) (v : ver) (owner : str) (now : Z) (mat : bytes) (l : list tattr) (obs : Z)
+| EMakePair (v : ver) (owner : str) (now : Z) (fu : Z) (mu : bytes) (fr : Z) (mr : bytes) (lc lu lr : list tattr) (obs : Z * Z).
 
 (* the row as the raw dump shows it: columns of tables the class does not own are printed with the model's NULL images *)
 Definition row_view (r : prow) : prow :=
@@ -78,6 +80,13 @@ Definition check_event (st : store) (e : event) : bool * store :=
   | ERestart => (true, step st HRestart)
   | EOther => (true, step st HRead)
   | EForeign => (true, step st HForeign)
+  | EMake k v o n mat l obs =>
+      match srv_make k v o n mat l st with Ok (st', u) => (u =? obs, st') | Err => (false, st) end
+  | EMakePair v o n fu mu fr mr lc lu lr obs =>
+      match srv_make_pair v o n fu mu fr mr lc lu lr st with
+      | Ok (st', (u1, u2)) => ((u1 =? fst obs) && (u2 =? snd obs), st')
+      | Err => (false, st)
+      end
   end.
 
 Fixpoint check_from (st : store) (l : list event) : bool :=
@@ -97,6 +106,8 @@ Definition model_answer (st : store) (e : event) : answer :=
   | EGet u _ => AGet (srv_get st u)
   | EAttrs v u _ => AAttrs (get_attributes v st u)
   | EAttrList v u _ => AList (srv_attr_list v st u)
+  | EMake k v o n mat l _ => AReg (match srv_make k v o n mat l st with Ok (_, u) => Ok u | Err => Err end)
+  | EMakePair v o n fu mu fr mr lc lu lr _ => AReg (match srv_make_pair v o n fu mu fr mr lc lu lr st with Ok (_, (u, _)) => Ok u | Err => Err end)
   | ERow u _ _ => ARow (option_map row_view (find_row u (s_rows st))) (option_map (fun r => otype_of (p_class r)) (find_row u (s_rows st)))
   | _ => ANone
   end.
